@@ -276,7 +276,7 @@ class GradSampleModule(AbstractGradSampleModule):
     ):
         if (
             not requires_grad(module)
-            or not module.training
+            or not self.training
             or not torch.is_grad_enabled()
         ):
             return
